@@ -9,7 +9,7 @@ import numpy as np
 # name as written in a formula -> (base variable, role).  Numeric atoms get their reference
 # columns from `numeric_columns`; categorical atoms are coded by complete indicators of the base.
 CAT_ATOMS = {
-    "f": "f", "g": "g", "h": "h", "s": "s", "u": "u",
+    "f": "f", "g": "g", "h": "h", "s": "s", "u": "u", "k": "k",
     "C(k)": "k", "C(f)": "f", "T(f)": "f", "S(g)": "g", "C(h, Sum)": "h", "S(f)": "f", "T(g)": "g",
     "C(g, Treatment)": "g", "C(k, Sum)": "k", "T(h)": "h", "S(h)": "h", "C(s)": "s", "T(s)": "s",
 }
@@ -22,12 +22,22 @@ NUM_ATOMS = {
 NUM_WIDTH = {"bs(z, df=3)": 3, "poly(x, 2)": 2, "bs(x, df=4)": 4, "poly(z, 3)": 3}
 
 
+_CODED = re.compile(r"^[CTS]\((\w+)\s*[,)]")
+
+
 def atom_base(a):
-    return CAT_ATOMS[a] if a in CAT_ATOMS else NUM_ATOMS[a]
+    if a in CAT_ATOMS:
+        return CAT_ATOMS[a]
+    if a in NUM_ATOMS:
+        return NUM_ATOMS[a]
+    m = _CODED.match(a)  # C(v, ...), T(v, ...), S(v, ...) with any options
+    if m:
+        return m.group(1)
+    raise KeyError(a)
 
 
 def is_cat(a):
-    return a in CAT_ATOMS
+    return a in CAT_ATOMS or (a not in NUM_ATOMS and bool(_CODED.match(a)))
 
 
 def atom_label_name(a):
@@ -80,7 +90,7 @@ def term_complete(term, frame):
     m = np.ones((len(frame), 1))
     for a in term:
         if is_cat(a):
-            part, _ = indicators(frame[CAT_ATOMS[a]].to_numpy())
+            part, _ = indicators(frame[atom_base(a)].to_numpy())
         else:
             part = numeric_columns(a, frame)
         m = khatri_rao_rows(m, part)
